@@ -59,8 +59,17 @@ func checkC16(c *Ctx) error {
 		}
 	}
 	add("Empty", "empty/done")
+	nstate := 3
+	if !c.Quick() {
+		nstate = 4
+	}
+	for n := 0; n <= nstate; n++ {
+		add("Step", "step/done", n)
+		add("StepOps", "stepops/done", n)
+	}
 	c.Bounds["universe"] = "membership/union/intersects/complement/equal: all code points 0..0x10FFFF; Len: elements 0..15; String: elements 0..5"
 	c.Bounds["history_length"] = map[string]int{"single_set_ops_max_insertions": k1, "pair_ops_max_insertions_total": kpair + 2}
+	c.Bounds["inductive_step"] = "one AddRange (and every read-only operation) from an ARBITRARY valid list of <= 3 (quick) / 4 (thorough) intervals: covers histories of any length whose sets have that many intervals"
 	c.Bounds["outside"] = "longer histories; cardinality of sets with elements above 15; arguments with begin > end, negative or above 0x10FFFF (precondition)"
 	c.Assumptions = append(c.Assumptions, "A-SSA: go/ssa (x/tools v0.50.0) translates set/set.go faithfully", "A-Z3: z3 4.8.12 answers are correct",
 		"precondition: AddRange(begin,end) with 0 <= begin <= end; Complement(limit) with every element <= limit")
@@ -76,7 +85,7 @@ func checkC16(c *Ctx) error {
 
 func cmdReplay(file string) int { return replayFile(file) }
 
-var c16Entries = []string{"Has", "AddOne", "Copy", "Complement", "Len", "ComplementLen", "UnionLen", "String", "Union", "UnionAlias", "Intersects", "Equal", "Empty"}
+var c16Entries = []string{"Has", "AddOne", "Copy", "Complement", "Len", "ComplementLen", "UnionLen", "String", "Union", "UnionAlias", "Intersects", "Equal", "Empty", "Step", "StepOps"}
 
 func init() {
 	replayers["C16"] = func(ws *Workspace, f *Finding) (*ReplayOutcome, error) {
